@@ -90,7 +90,12 @@ template <class T> bool run_guard (bool thorough)
                     opt.regime = nover == 0 ? 0 : (nover == naxes ? 3 : 2);
                     const Truth<I128> tr = slab<I128> (mn, mx, p0, d);
                     const bool rline = !parmiss && tlo <= thi, rray = rline && thi >= 0;
-                    if (rline != tr.line || rray != tr.ray) { ++l_out; continue; }
+                    if (rline != tr.line || rray != tr.ray)
+                    {   // outside the domain of the exact oracle; the documented-fallback model has its own domain test (c14.hpp)
+                        ++l_out;
+                        if (opt.regime >= 2) { opt.fallback_only = true; one_case<T, I128> (mn, mx, p0, d, tl, opt); }
+                        continue;
+                    }
                     if (opt.regime == 2) ++l_some;
                     if (opt.regime == 3) ++l_every;
                 }
@@ -112,6 +117,8 @@ template <class T> bool run_guard (bool thorough)
     vf::R ().cls ("guard.some-t-exceeds-max", n_some.load ());
     vf::R ().cls ("guard.every-t-exceeds-max", n_every.load ());
     vf::R ().add ("guard_cases_outside_domain(truth rests on a sub-ulp difference of parameters)", n_out.load ());
+    vf::R ().cls ("guard.overflow-regime.judged-against-documented-fallback", total.fb_judged);
+    vf::R ().add ("guard_overflow_cases_outside_fallback_model_domain(sub-ulp difference of parameters)", total.fb_excluded);
     vf::R ().note_max (std::string ("worst guard-alphabet point error / (eps*M), ") + tname<T> (), total.worst);
     return ok;
 }
